@@ -158,6 +158,21 @@ if __name__ == '__main__':
         json.dump(meta, open(mp, 'w'), indent=1)
         if res.get('confirmed'):
             drop('/tmp/wt/%s' % wt)
+    elif cmd == 'intakeall':
+        # every /tmp/wt/<prop> that holds a finished _seeded/ directory: collect under the next free name and process
+        import string
+        for wt in sorted(os.listdir('/tmp/wt')):
+            if not os.path.exists('/tmp/wt/%s/_seeded/patch.diff' % wt) or not os.path.exists('/tmp/wt/%s/_seeded/demo.py' % wt):
+                continue
+            prop = wt
+            used = {n.split('-', 1)[1] for n in os.listdir(SEEDED) if n.startswith(prop + '-')}
+            letter = next(c for c in string.ascii_lowercase if c not in used)
+            name = '%s-%s' % (prop, letter)
+            r = subprocess.run([sys.executable, os.path.abspath(__file__), 'intake', wt, name, prop], text=True, capture_output=True,
+                               timeout=1800)
+            lines = [l for l in r.stdout.splitlines() if l.startswith(('check rc', ' \"confirmed'))]
+            print(name, ' | '.join(l.strip() for l in lines))
+            sys.stdout.flush()
     elif cmd == 'recheck':
         # recheck <name>...: run the property's quick check against the patched scratch tree again and update meta.json
         for name in sys.argv[2:]:
